@@ -43,7 +43,21 @@ EventuallyConverged == <>[](closed \/ (Settled /\ peerTable = lastRequested))
 
 StateRec == [closed |-> closed, up |-> conn # 0, adv |-> advertised, new |-> new, pc |-> snd.pc,
              alive |-> peerAlive]
-Emit == PrintT(ToJson([n |-> n, act |-> act', pc |-> snd'.pc, up |-> conn' # 0]))
+Emit == PrintT(ToJson([n |-> n, last |-> act, act |-> act']))
+
+(* role B, simulation: the same actions with the environment's choices thinned out so that a    *)
+(* random walk interleaves them with the sender instead of spending every Set before the first *)
+(* connection (TLC picks uniformly among the successors)                                       *)
+SimTargets == {Empty, RandomElement(Tables),
+               [lastRequested EXCEPT ![RandomElement(Routes)] = RandomElement(Attrs \cup {ABSENT})]}
+SimNext ==
+  /\ Tick /\ n < MaxSteps
+  /\ \/ \E S \in SimTargets : Set(S)
+     \/ (RandomElement(1..10) = 1 /\ Close)
+     \/ (RandomElement(1..2) = 1 /\ PeerDrops)
+     \/ (RandomElement(1..2) = 1 /\ ConnectRefused)
+     \/ SenderStep \/ WriteFails \/ ReaderStep \/ PeerRecv
+SimSpec == Init /\ [][SimNext]_mcvars
 
 Sym == Permutations(Routes) \cup Permutations(Attrs)
 
